@@ -7,17 +7,19 @@ from niltype import Nil
 from d42 import validate
 from d42.declaration.types import DictSchema
 
-MODULE = "D42.Props.C04Carries"
+MODULE = "D42.Props.C04All"
 THEOREMS = ["subst_accepts", "subst_total", "subst_keeps_rest", "subst_given_required",
             "subst_pins_scalar", "subst_pins_bool_int", "subst_pins_float_precision",
             "subst_accepts_counterexample", "subst_accepts_contains_counterexample",
-            "subst_accepted_carries", "subst_generated_carries", "carries_example", "subst_accepted_carries_counterexample"]
+            "subst_accepted_carries", "subst_generated_carries", "carries_example", "subst_accepted_carries_counterexample",
+            "genScalar_fixed_eq_extracted", "shortcut_everywhere"]
 FILES = ["D42/Model/Data.lean", "D42/Model/Validate.lean", "D42/Model/Subst.lean", "D42/Props/C14.lean", "D42/Props/C12.lean",
-         "D42/Props/C05.lean", "D42/Props/C04.lean", "D42/Props/C01.lean", "D42/Props/C04Carries.lean"]
+         "D42/Props/C05.lean", "D42/Props/C04.lean", "D42/Props/C01.lean", "D42/Props/C04Carries.lean",
+         "D42/Gen/GenProg.lean", "D42/Props/GenProg.lean", "D42/Props/C04All.lean"]
 
 EVIDENCE = dict(
     level="proof",
-    checker_cmd="lake build D42.Props.C04Carries d42model && lake env lean <#print axioms audit>",
+    checker_cmd="lake build D42.Props.C04All d42model && lake env lean <#print axioms audit>",
     trusted=["Lean kernel; standard axioms", "substitution model tied to the code by the outcome correspondence of this run"],
     rule="plain values (complete, partial dicts at any depth, perturbed) substituted into generated schemas; for each success: "
          "accept-the-value, generated values under lo/hi/rnd draws carry the value, accepted perturbations carry the value, "
@@ -100,6 +102,10 @@ def oracle(ctx, cases):
 
 
 def run(ctx):
+    from .. import extract_generator
+    ok, msg = extract_generator.run()
+    if not ok:
+        ctx.breakage("translation", "generator short-circuit extraction failed: " + msg)
     runner.prove(ctx, MODULE, THEOREMS, FILES)
     cases = substcorr.batch(ctx, ctx.n(90, 700), customs=False) + substcorr.open_dict_any_cases(ctx, ctx.n(150, 1500)) + substcorr.untyped_pair_cases(ctx) + substcorr.untyped_edge_cases(ctx) + substcorr.untyped_zoo_cases(ctx) + substcorr.relaxed_marker_position_cases(ctx) + substcorr.list_window_cases(ctx) + substcorr.float_precision_cases(ctx) + substcorr.many_errors_cases(ctx) + substcorr.list_partial_dict_cases(ctx)
     from d42 import schema
